@@ -30,3 +30,9 @@ func init() {
 		Rules:   []string{"C03.R1", "C03.R2", "C03.R3", "C03.R4", "C03.R5"},
 		Explain: "tbd", NotDecided: []string{"tbd"}})
 }
+
+func init() {
+	registerProperty(&PropertyDef{ID: "C04", Title: "Operations are total: no panic and no hang on any well-formed input",
+		Rules:   []string{"C04.R1", "C04.R2", "C04.R3", "C04.R4", "C04.R5"},
+		Explain: "tbd", NotDecided: []string{"tbd"}})
+}
